@@ -84,7 +84,12 @@ def scripted_cl(tape):
 
 @contextlib.contextmanager
 def scripted_re(tape):
-    """Patch nifty.re's `random_like` (normal draws) to read the tape."""
+    """Patch nifty.re's `random_like` and `jax.random.normal` (eager calls) to read the tape.
+
+    PRNG-key semantics are kept: `random_like` splits its key into one subkey per leaf exactly as the
+    library does, and two normal draws with the SAME key (and shape) return the SAME tape entries -- so a
+    key that is reused for two leaves shows up as perfectly correlated rows of the exact linear map, as it
+    would in reality.  Draws under a tracer (jit / vmap) are not scripted."""
     import jax
     import jax.numpy as jnp
     import nifty.re as jft
@@ -92,31 +97,63 @@ def scripted_re(tape):
     import nifty.re.evi as evi
     import nifty.re.hmc as hmc
 
-    def random_like(key, primals, rng=None):
-        leaves, treedef = jax.tree_util.tree_flatten(primals)
-        out = []
-        for l in leaves:
-            shape = tuple(getattr(l, "shape", ()))
-            dt = getattr(l, "dtype", np.float64)
-            n = int(np.prod(shape, dtype=int))
+    orig_normal = jax.random.normal
+    memo = tape.__dict__.setdefault("keymemo", {})
+    tape.__dict__.setdefault("key_reuse", 0)
+
+    def normal(key, shape=(), dtype=float):
+        if isinstance(key, jax.core.Tracer):
+            return orig_normal(key, shape, dtype)
+        try:
+            kd = tuple(np.asarray(jax.random.key_data(key)).ravel().tolist())
+        except Exception:
+            kd = tuple(np.asarray(key).ravel().tolist())
+        shape = tuple(int(x) for x in (shape if np.ndim(shape) else (shape,))) if shape != () else ()
+        dt = np.dtype(dtype)
+        mk = (kd, shape, dt.str)
+        n = int(np.prod(shape, dtype=int))
+        if mk in memo:
+            vals = memo[mk]
+        else:
+            if any(k[0] == kd for k in memo):
+                tape.key_reuse += 1
             if np.issubdtype(dt, np.complexfloating):
                 re = tape.take(n).reshape(shape)
                 im = tape.take(n).reshape(shape)
                 # jax.random.normal for complex dtype: unit total variance
-                out.append(jnp.asarray((re + 1j * im) / np.sqrt(2.), dtype=dt))
+                vals = (re + 1j * im) / np.sqrt(2.)
             else:
-                out.append(jnp.asarray(tape.take(n).reshape(shape), dtype=dt))
-        return jax.tree_util.tree_unflatten(treedef, out)
+                vals = tape.take(n).reshape(shape)
+            memo[mk] = vals
+        return jnp.asarray(vals, dtype=dt)
+
+    orig_random_like = forest_math.random_like
+
+    def random_like(key, primals, rng=None):
+        if rng is not None and rng is not orig_normal and rng is not normal:
+            return orig_random_like(key, primals, rng)
+        if isinstance(key, jax.core.Tracer):
+            return orig_random_like(key, primals)
+        struct = jax.tree_util.tree_structure(primals)
+        subkeys = jax.tree_util.tree_unflatten(struct, jax.random.split(key, struct.num_leaves))
+
+        def draw(k, x):
+            shp = x.shape if hasattr(x, "shape") else jnp.shape(x)
+            dtp = x.dtype if hasattr(x, "dtype") else np.result_type(x)
+            return normal(k, tuple(shp), dtp)
+        return jax.tree_util.tree_map(draw, subkeys, primals)
     saved = []
     for mod in (forest_math, evi, hmc, jft.tree_math, jft):
         if hasattr(mod, "random_like"):
-            saved.append((mod, mod.random_like))
+            saved.append((mod, "random_like", mod.random_like))
             mod.random_like = random_like
+    saved.append((jax.random, "normal", orig_normal))
+    jax.random.normal = normal
     try:
         yield tape
     finally:
-        for mod, f in saved:
-            mod.random_like = f
+        for mod, name, f in saved:
+            setattr(mod, name, f)
 
 
 def measure(fn, ctx=scripted_cl):
